@@ -672,6 +672,8 @@ func (s *UDPSession) SetRateLimit(bytesPerSecond uint32) {
 
 // SetLogger configures the kcp trace logger
 func (s *UDPSession) SetLogger(mask KCPLogType, logger logoutput_callback) {
+	s.mu.Lock()
+	defer s.mu.Unlock()
 	s.kcp.SetLogger(mask, logger)
 }
 
@@ -889,6 +891,8 @@ func (s *UDPSession) GetOOBMaxSize() int {
 	if s.fecEncoder == nil {
 		return 0
 	}
+	s.mu.Lock()
+	defer s.mu.Unlock()
 	// Packet layout: | conv (4B) | OOB payload |
 	return int(s.kcp.mtu) - convSize
 }
